@@ -263,7 +263,7 @@ Inductive trans (s : st) : op -> st -> out -> Prop :=
     cred_proves cf cr (q_client q) = true -> uri = q_uri q ->
     (forall ch, q_chal q = Some ch -> chal_ok H ch ver = true) ->
     (is_public c = true -> q_chal q <> None) ->
-    trans s (TokenCode pl f cr (Some cd) uri ver) (fst (issue_code s q c)) (snd (issue_code s q c))
+    trans s (TokenCode pl f cr (Some cd) uri ver) (fst (issue_code cf s q c)) (snd (issue_code cf s q c))
 | T_refresh pl cr n scopes t c sc :
     find_rt s n = Some t -> find_client cf (r_client t) = Some c -> has_refresh s c = true -> f_refresh cf = true ->
     cred_proves cf cr (r_client t) = true -> narrowed scopes (r_scopes t) = Some sc ->
@@ -352,8 +352,8 @@ Proof.
       destruct (c_code c); cbn [negb]; [|intros [= <- <-]; terr].
       destruct (String.eqb uri (q_uri q)) eqn:Eu; cbn [negb]; [|intros [= <- <-]; terr].
       apply String.eqb_eq in Eu. intro Hi.
-      replace s' with (fst (issue_code s q c)) by now rewrite Hi.
-      replace x with (snd (issue_code s q c)) by now rewrite Hi.
+      replace s' with (fst (issue_code cf s q c)) by now rewrite Hi.
+      replace x with (snd (issue_code cf s q c)) by now rewrite Hi.
       apply T_code; auto.
       intros ch Hch. rewrite Hch in Hpk. apply pkce_pass in Hpk as [c0 [[= <-] Hok]]. exact Hok.
     + unfold legacy_code. destruct (legacy_client cf cr) as [c|e] eqn:Hc; [|intros [= <- <-]; terr].
@@ -368,8 +368,8 @@ Proof.
       apply String.eqb_eq in E. rewrite E in Hf, Hp.
       destruct (String.eqb uri (q_uri q)) eqn:Eu; cbn [negb]; [|intros [= <- <-]; terr].
       apply String.eqb_eq in Eu. intro Hi.
-      replace s' with (fst (issue_code s q c)) by now rewrite Hi.
-      replace x with (snd (issue_code s q c)) by now rewrite Hi.
+      replace s' with (fst (issue_code cf s q c)) by now rewrite Hi.
+      replace x with (snd (issue_code cf s q c)) by now rewrite Hi.
       apply T_code; auto.
       * intros ch Hch. rewrite Hch in Hpk. rewrite !orb_true_r in Hpk.
         apply pkce_pass in Hpk as [c0 [[= <-] Hok]]. exact Hok.
@@ -423,7 +423,7 @@ Lemma trans_code_inv s pl f cr code uri ver s' t :
     /\ cred_proves cf cr (q_client q) = true /\ uri = q_uri q
     /\ (forall ch, q_chal q = Some ch -> chal_ok H ch ver = true)
     /\ (is_public c = true -> q_chal q <> None)
-    /\ issue_code s q c = (s', OTokens t).
+    /\ issue_code cf s q c = (s', OTokens t).
 Proof.
   intro Ht. inversion Ht; subst; [contradiction|].
   match goal with Hc : code_req s ?cd = Some ?q, Hf : find_client cf (q_client ?q) = Some ?c |- _ =>
